@@ -253,7 +253,7 @@ def near_misses(rng):
 NOT_CLAIMED = {}
 
 NOTE_MODEL = ("Trusted: Coq kernel; the hand-written model (tied by the named correspondence components, which are differential tests); "
-              "gen_tables.py; ExtrOcamlBasic extraction + ocaml/driver.ml; bliss/igraph as an oracle with contract H1/H2 (assumed, tested on every call).")
+              "gen_tables.py and gen_logic.py (constants, tables and decisions read from the source on every run; Proofs/ParamsSpec.v, Proofs/LogicSpec.v); ExtrOcamlBasic extraction + ocaml/driver.ml; bliss/igraph as an oracle with contract H1/H2 (assumed, tested on every call).")
 
 SPECS = {
     "C13": dict(fn=c13, level="proof", components=["K4"], assumptions=MOL_ASSUME,
